@@ -59,7 +59,9 @@ LimitAt(ev, u, j) ==
 (* runs of the task as it is queued now: once a task has left the queue (cancelled, or taken off after its last occurrence) *)
 (* what is added later under the same UID is a new task; a replaced task stays the same task                                *)
 Absent(ev, u, x) == ev[x].e = "State" /\ ~\E t \in SeqSet(ev[x].tasks) : t.uid = u
-RealRuns(ev, u, j) == {s \in 1..(j - 1) : ev[s].e = "Spawn" /\ ev[s].uid = u /\ ~ev[s].norun /\ ~\E x \in (s + 1)..(j - 1) : Absent(ev, u, x)}
+(* a start that failed (the executor could not be spawned) is an attempt, not a run: nothing of it is running afterwards *)
+Failed(e) == Has(e, "failed") /\ e.failed
+RealRuns(ev, u, j) == {s \in 1..(j - 1) : ev[s].e = "Spawn" /\ ev[s].uid = u /\ ~ev[s].norun /\ ~Failed(ev[s]) /\ ~\E x \in (s + 1)..(j - 1) : Absent(ev, u, x)}
 StillRunning(ev, s, j) == ~\E x \in (s + 1)..(j - 1) : ev[x].e = "Exit" /\ ev[x].pid = ev[s].pid
 NotYetReaped(ev, s, j) == ~\E x \in (s + 1)..(j - 1) : ev[x].e = "Deliver" /\ ev[x].k = "chld" /\ ev[x].pid = ev[s].pid
 (* the daemon has had every chance to learn of the end of run s: the job has ended and there was a moment with nothing left to dispatch *)
